@@ -1,4 +1,5 @@
 import Model.Marshal
+import Gen.MarshalCfg
 import Drv.Common
 open Marshal Drv
 
@@ -80,10 +81,10 @@ def stepC32 (_ : Unit) (line : String) : Unit × String :=
     match valOfSpec arg with
     | some v =>
       let m := marshal v
-      ((), esc m ++ " => " ++ showRes (unmarshal m))
+      ((), esc m ++ " => " ++ showRes (unmarshal cfgExactInt m))
     | none => ((), "bad-op")
-  | "un" => ((), showRes (unmarshal (unesc arg)))
-  | "tab" => let (_, e) := cut arg; ((), showRes (unmarshal (unesc e)))
+  | "un" => ((), showRes (unmarshal cfgExactInt (unesc arg)))
+  | "tab" => let (_, e) := cut arg; ((), showRes (unmarshal cfgExactInt (unesc e)))
   | _ => ((), "bad-op")
 
 def main : IO Unit := run () stepC32
